@@ -4,9 +4,16 @@ proof:          lean/PdshVerif/Props/C20.lean (LTS Dsh/Signals.lean = the fan-ou
                 signals thread, the environment (signal delivery, clock), thd_mutex and t[i].state)
 correspondence: the unmodified dsh.c under the controlled scheduler (harness/sched; sigwait, raise, exit, time wrapped;
                 the schedule decides when SIGINT/SIGTSTP arrive) vs the same LTS, compiled (`pdshmodel sig`): every
-                event enabled, threadcount / t[i].state / enabled sets equal at every step, listing, canceled count,
-                forwarded hosts, exit status equal
-oracle:         spec-level monitors on the observable events of the real run (vlib/sigcheck.py:offenders)
+                event enabled, threadcount / t[i].state / enabled sets equal at every step, listing (whichever locking
+                discipline prints it), canceled count, forwarded hosts, exit status equal, every stdio call made where
+                the product model (Dsh/SignalsOutput.lean) has one
+oracle:         spec-level monitors on the observable events of the real run (vlib/sigcheck.py:offenders); the real
+                dsh.c on REAL threads with REAL signals, a gated transport and a settable clock
+                (harness/sigthread_harness.c, vlib/sigthread.py: _mask_signals, the sigwait set, raise(SIGSTOP), errx,
+                pthread_cancel/join decided by behaviour, no wall-clock race); the real execcmd.c/pipecmd.c on children
+generators:     vlib/sigphase.py (situations reached by steering the scheduler: a host in each phase, mutex holders, the
+                INTR_TIME boundary, the shutdown tail; every pair of positions; interrupts during time-outs),
+                vlib/sigrun.py (corpus, DFS, every position, random)
 """
 from vlib import sigrun
 
@@ -27,12 +34,19 @@ MANIFEST = dict(
          "function with equal threadcount, t[i].state and enabled sets, and is judged by model-independent monitors "
          "(forwarding to exactly the running hosts, prompt non-zero exit, listing = hosts connecting/running, harmless "
          "single ^C = same outputs and return value as the signal-free run, ^C^Z cancels only pending hosts and no "
-         "canceled host is connected afterwards, never a deadlock).",
+         "canceled host is connected afterwards, never a deadlock).  Deterministic in every run: a host in each of the six "
+         "phases at once with the watchdog or a worker holding either mutex, 0..3 s on the clock between ^C and a second "
+         "^C / ^Z (1 s = INTR_TIME exactly), signals around every step of the shutdown tail, every pair of positions on "
+         "two tiny configurations, a signal at every position while the watchdog times hosts out, and 13 scenarios on "
+         "real threads with real signals (gated transport, settable clock).",
     design_ref="DESIGN.md section 5 C20 (and C03/C04), appendix A.1",
     note="Lean 4.33 kernel; axioms propext/Classical.choice/Quot.sound at most; protocol-level model tied to dsh.c by "
          "trace acceptance; pthread/sigwait semantics modelled, not verified; scheduler granularity = wrapped calls "
          "(plain memory races between _cancel_pending_threads and _update_connect_state are below it); asynchronous "
-         "delivery inside libc and exit() racing with threads holding a stdio lock are outside the model; deferred "
+         "delivery inside libc is outside the model; stdio is modelled by per-call atomicity (product model "
+         "Dsh/SignalsOutput.lean: an abort tears at most the record in progress, which is the last thing in the stream; "
+         "glibc's lock-free flush at exit() duplicating buffered bytes is not modelled); the LTS accepts both locking "
+         "disciplines of the listing (print under thd_mutex / copy, unlock, print); deferred "
          "pthread_cancel of the signals thread and the join before dsh() returns are in the model (St.scan, SAct.die; "
          "signals_thread_ended_before_return, progress_needs_only_sigwait); forwarding below dsh.c is checked on the "
          "real execcmd.c/pipecmd.c with real children (harness/execsig_harness.c); the form of the worker's first state write (blind as pinned = finding "
